@@ -106,6 +106,8 @@ def run(ctx):
     # options that route directory creation / cache placement through other code paths
     confs.append(("fsync+umask", {"storage": {"_filesystem_fsync": "True", "folder_umask": "0027"}, "auth": {"type": "none"}}))
     confs.append(("fsync+cachefolder", {"storage": {"_filesystem_fsync": "True", "filesystem_cache_folder": "@tmp"}, "auth": {"type": "none"}}))
+    confs.append(("fsync+cachefolder-prefix", {"storage": {"_filesystem_fsync": "True", "filesystem_cache_folder": "@prefix", "use_cache_subfolder_for_item": "True"},
+                                                "auth": {"type": "none"}}))
     confs.append(("nofsync", {"storage": {"_filesystem_fsync": "False"}, "auth": {"type": "none"}}))
     shapes = [0] if ctx.tier == "quick" else [0, 1, 2]
     try:
